@@ -53,7 +53,9 @@ type cacheInfo struct {
 	expiresAt  time.Time
 	lastUpdate time.Time
 	seq        uint
-	updateSeq  uint
+	// unpublished is true while provider has changes that have not yet been
+	// copied into the read-only data.
+	unpublished bool
 }
 
 // ctxExtendedInfo contains cached read-only contextual extended provider
@@ -300,10 +302,10 @@ func (pc *ProviderCache) Refresh(ctx context.Context) error {
 				// Fetched new provider information, add it to cache.
 				lastUpdate, _ := time.Parse(time.RFC3339, fetchedInfo.LastAdvertisementTime)
 				pc.write[pid] = &cacheInfo{
-					provider:   fetchedInfo,
-					lastUpdate: lastUpdate,
-					seq:        seq,
-					updateSeq:  seq,
+					provider:    fetchedInfo,
+					lastUpdate:  lastUpdate,
+					seq:         seq,
+					unpublished: true,
 				}
 				continue
 			}
@@ -323,7 +325,7 @@ func (pc *ProviderCache) Refresh(ctx context.Context) error {
 			// Source has later advertisement in chain, so update cache.
 			cinfo.lastUpdate = lastUpdate
 			cinfo.provider = fetchedInfo
-			cinfo.updateSeq = seq // updated provider info
+			cinfo.unpublished = true // updated provider info
 		}
 	}
 
@@ -349,9 +351,11 @@ func (pc *ProviderCache) Refresh(ctx context.Context) error {
 				// Store nil in updates to override anything in main map.
 				updates[pid] = nil
 			}
-		} else if cinfo.updateSeq == seq {
-			// Address updated, update read-only data.
+		} else if cinfo.unpublished {
+			// Provider info updated, by this refresh or by an earlier one that
+			// was canceled before it got here. Update read-only data.
 			updates[pid] = apiToCacheInfo(cinfo.provider)
+			cinfo.unpublished = false
 		}
 	}
 
@@ -450,8 +454,7 @@ func (pc *ProviderCache) fetchMissing(ctx context.Context, pid peer.ID) (*readPr
 	}
 
 	cinfo := &cacheInfo{
-		seq:       seq,
-		updateSeq: seq,
+		seq: seq,
 	}
 
 	for _, src := range pc.sources {
